@@ -86,6 +86,42 @@ pub fn run(o: &Opts, rng: &mut Rng) -> Sink {
         }
     }
     drop(one);
+    // 4. whole requests through RequestBuilder::build with the handler: what goes on the wire (URL and
+    //    body bytes of the hyper request) against the metadata returned for verification
+    let n = if o.thorough { 30_000 } else { 1_500 };
+    for _ in 0..n {
+        let (cfg, _) = crate::streams::wire_req::gen_config(rng);
+        let kid = *rng.pick(&[0u64, 1, 42, 123456789, u64::MAX]);
+        let h = handler(kid, rng.below(3) as usize);
+        let params = omaha_client::request_builder::RequestParams { source: if rng.chance(1, 2) { omaha_client::protocol::request::InstallSource::OnDemand } else { omaha_client::protocol::request::InstallSource::ScheduledTask }, ..Default::default() };
+        let napps = 1 + rng.below(3);
+        let apps: Vec<omaha_client::common::App> = (0..napps).map(|i| crate::streams::wire_req::gen_app(rng, &format!("app{}", i)).0).collect();
+        let kind = rng.below(3);
+        let ev = crate::streams::wire_req::gen_event(rng).0;
+        let mut b = omaha_client::request_builder::RequestBuilder::new(&cfg, &params);
+        for a in &apps {
+            b = match kind { 0 => b.add_update_check(a).add_ping(a), 1 => b.add_event(a, ev.clone()), _ => b.add_ping(a) };
+        }
+        let non_ascii = apps.iter().any(|a| format!("{:?}", a).chars().any(|c| !c.is_ascii())) || !format!("{:?}{:?}", cfg.updater.name, cfg.os).is_ascii();
+        let built = std::panic::catch_unwind(std::panic::AssertUnwindSafe(|| b.build(Some(&h))));
+        let (out, nonce) = match built {
+            Err(_) => ("panic".to_string(), [0u8; 32]),
+            // the builder itself refuses (a header value the configuration cannot express): no request, nothing to decorate
+            Ok(Err(_)) => { sink.bump("gen:built-refused-by-builder"); continue; }
+            Ok(Ok((_, None))) => ("ok-without-metadata".to_string(), [0u8; 32]),
+            Ok(Ok((req, Some(meta)))) => {
+                let nn: [u8; 32] = meta.nonce.into();
+                if !nonces.insert(nn.to_vec()) { dup_nonce += 1; }
+                let (parts, body) = req.into_parts();
+                let wire = futures::executor::block_on(hyper::body::to_bytes(body)).unwrap();
+                let same = meta.request_body == wire.to_vec();
+                (format!("ok {} kid={} body={}", hexb(parts.uri.to_string().as_bytes()), meta.public_key_id, if same { "same" } else { "diff" }), nn)
+            }
+        };
+        sink.bump(&format!("gen:built-{}-{}", ["uc", "ev", "ping"][kind as usize], if non_ascii { "nonascii" } else { "ascii" }));
+        let tag = format!("built/{}/{}/{}/{}", kind, napps, non_ascii, hexb(cfg.service_url.as_bytes()));
+        sink.case(format!("decorate {} {} {}", hexb(cfg.service_url.as_bytes()), kid, hexb(&nonce)), Some(tag), move || out);
+    }
     sink.hist.insert("distinct-nonces".into(), nonces.len() as u64);
     sink.hist.insert("duplicate-nonces".into(), dup_nonce);
     if dup_nonce > 0 {
